@@ -517,6 +517,9 @@ def run(ctx):
             run_spawn(ctx, sexe, rp["cmds"])
         return
     rng = ctx.rng
+    parts = os.environ.get("C12_PARTS", "unit,spawn").split(",")   # self-test aid: run one detector family only
+    if "unit" not in parts: uexe = None
+    if "spawn" not in parts: sexe = None
     if uexe:
         ex = list(ci_exhaustive(ctx.scale(3, 4), 6, range(3, 9)))
         ok = run_ci(ctx, uexe, ex, "exhaustive")
